@@ -43,7 +43,16 @@ VARIABLES pt,             \* parameter point of this session
 
 vars == <<pt, tab, M, unk, deg, ct, nrep, rcvd, nullderef>>
 
-Code == [ p \in Points |-> Rfc5170(p.k, p.r, p.N1, p.seed) ]
+(* a point with N1 = 0 denotes the 2D product parity code with `seed' row checks of k/seed symbols each  *)
+(* (the generic IT/ML engines are shared by the LDPC-Staircase and the 2D parity codecs)                 *)
+Product2D(dd, ll) ==
+    LET k == dd * ll
+    IN  [ x \in 1 .. (dd + ll) |->
+            IF x <= dd THEN { (x - 1) * ll + c : c \in 0 .. (ll - 1) } \cup { k + x - 1 }
+            ELSE { (x - dd - 1) + j * ll : j \in 0 .. (dd - 1) } \cup { k + x - 1 } ]
+Code == [ p \in Points |-> IF p.N1 = 0
+                           THEN [ H |-> Product2D(p.seed, p.k \div p.seed), extra |-> TRUE, draws |-> 0, final |-> 0, ins |-> <<>> ]
+                           ELSE Rfc5170(p.k, p.r, p.N1, p.seed) ]
 HOf(p) == Code[p].H
 K(p) == p.k
 N(p) == p.k + p.r
@@ -60,7 +69,7 @@ CwUpTo(p, i) ==     \* function on 0 .. k+i-1
          IN  [ e \in 0 .. (p.k + i - 1) |-> IF e = p.k + i - 1 THEN v ELSE prev[e] ]
 CwTab == [ p \in Points |-> CwUpTo(p, p.r) ]
 
-ClaimsNull(p) == (p.N1 % 2 = 0) /\ ~Code[p].extra
+ClaimsNull(p) == p.N1 > 0 /\ (p.N1 % 2 = 0) /\ ~Code[p].extra
 
 (***************************************************************************)
 (* The decoder state as one record, so that the recursion of the C code    *)
@@ -174,6 +183,9 @@ PartialSums ==
               /\ \A x \in rest : tab[x] = NoVal
 
 NoNullDeref == ~nullderef
+
+(* C16: a product parity code recovers any single loss by peeling alone *)
+SingleLoss == (pt.N1 = 0 /\ Cardinality(rcvd) >= N(pt) - 1) => Complete
 
 (* the last-symbol claim used at configuration time is truthful (C15, model side) *)
 ClaimTruthful == ClaimsNull(pt) => CwTab[pt][N(pt) - 1] = {}
